@@ -47,7 +47,8 @@ func (f *FileLoader) copyToTargetFile(filePath string) error {
 }
 
 func (f *FileLoader) GetCRLLocationIdentifier() (string, error) {
-	return calculateHashHexString(f.FileName), nil
+	//a file name must not get the identifier of an url which is spelled the same (a normalized url never contains a control character)
+	return calculateHashHexString("\x00file:" + f.FileName), nil
 }
 
 func (f *FileLoader) GetDescription() string {
